@@ -135,6 +135,11 @@ func (rs *RecordSet) readFromVersion1(d *decoder) error {
 				// using the offset from the outer message, which corresponds to the
 				// offset assigned to the last inner message.
 				lastRelativeOffset := int64(len(r.records)) - 1
+				// Log compaction may have removed some of the inner messages,
+				// the relative offset of the last one is then not the count.
+				if n := len(r.records); n > 0 {
+					lastRelativeOffset = r.records[n-1].Offset
+				}
 
 				for i := range r.records {
 					r.records[i].Offset = baseOffset - (lastRelativeOffset - r.records[i].Offset)
